@@ -219,6 +219,48 @@ def norm_cases(suffix, wordT, widths, kind):
 
 
 def unpack_shape(u, arg, pos, w, kind, fw=32):
+    st, detail = _unpack_shape0(u, arg, pos, w, kind, fw)
+    if st == R.UNDECIDED and w <= 32:
+        wit = decode_witness(u, w, kind, fw)
+        if wit:
+            return R.REFUTED, wit + '  (' + detail[:160] + ')'
+    return st, detail
+
+
+def decode_witness(u, w, kind, fw):
+    """the decoder's derived term evaluated at boundary codes of the field (all other word bits zero): a decoded value that is neither code * fl(1/S) nor code / S
+    (clamped to [-1, 1] for snorm), both computed in the float type, is an established difference"""
+    from laneflow import ceval as CE
+    ins = sorted({x for x in tm.walk(u) if x.op == 'in'}, key=lambda q: q.id)
+    if len(ins) != 1:
+        return None
+    x = ins[0]
+    offs = sorted({(y.args[1]) for y in tm.walk(u) if y.op == 'slice' and y.args[0] is x})
+    pos = offs[0] if offs else 0
+    if x.w < pos + w:
+        pos = 0
+    S_ = (1 << w) - 1 if kind == 'unorm' else (1 << (w - 1)) - 1
+    fl = (lambda v: CE.b2f(fw, CE.f2b(fw, v)))
+    rcp = fl(1.0 / S_)
+    codes = [0, 1, 2, S_, S_ - 1, S_ // 2, S_ // 3]
+    if kind == 'snorm':
+        codes += [-1, -2, -S_, -S_ - 1, -(S_ // 2)]
+    for c in codes:
+        field = c & ((1 << w) - 1)
+        env = {x: (field << pos) & ((1 << x.w) - 1)}
+        try:
+            got = CE.b2f(fw, CE.evaluate(u, env))
+        except CE.NoValue:
+            return None
+        cands = {fl(fl(float(c)) * rcp), fl(float(c) / float(S_))}
+        if kind == 'snorm':
+            cands = {max(-1.0, min(1.0, v)) for v in cands}
+        if got not in cands:
+            return 'code %d (field bits %#x) decodes to %r; the %d-bit %s value is %s' % (c, field, got, w, kind, ' or '.join(repr(v) for v in sorted(cands)))
+    return None
+
+
+def _unpack_shape0(u, arg, pos, w, kind, fw=32):
     want = (1 << w) - 1 if kind == 'unorm' else (1 << (w - 1)) - 1
     x = u
     clamped = False
